@@ -512,6 +512,32 @@ def m_from_residual_err(ex, st, args, dest_ty, fname):
     return enum("Err", r[2][0] if r[2] else UNIT)
 
 
+def m_range_contains(ex, st, args, dest_ty, fname):
+    """Range::<T>::contains(&self, &item): start <= item < end"""
+    r = args[0]
+    while isinstance(r, tuple) and r and r[0] in ("ref", "refval"):
+        r = ex.deref(r, st)
+    v = args[1]
+    while isinstance(v, tuple) and v and v[0] in ("ref", "refval"):
+        v = ex.deref(v, st)
+    lo, hi = r[1][0], r[1][1]
+    c = b_and(lo <= v, v < hi)
+    return z3.simplify(c) if is_sym(c) else c
+
+
+def m_range_incl_contains(ex, st, args, dest_ty, fname):
+    """RangeInclusive::<T>::contains(&self, &item): start <= item <= end (fields start, end, exhausted)"""
+    r = args[0]
+    while isinstance(r, tuple) and r and r[0] in ("ref", "refval"):
+        r = ex.deref(r, st)
+    v = args[1]
+    while isinstance(v, tuple) and v and v[0] in ("ref", "refval"):
+        v = ex.deref(v, st)
+    lo, hi = r[1][0], r[1][1]
+    c = b_and(lo <= v, v <= hi)
+    return z3.simplify(c) if is_sym(c) else c
+
+
 def M(pattern, fn):
     return (re.compile(pattern), fn)
 
@@ -564,6 +590,8 @@ COMMON = [
     M(r"^core::str::<impl str>::parse::<i64>$", m_parse_i64),
     M(r"^Result::<i64, ParseIntError>::map_err::<\(\), ", m_map_err_unit),
     M(r"^<Chars<'_> as Iterator>::last$", m_chars_last),
+    M(r"^(std::ops::|core::ops::)?Range::<\w+>::contains::<\w+>$", m_range_contains),
+    M(r"^(std::ops::|core::ops::)?RangeInclusive::<\w+>::contains::<\w+>$", m_range_incl_contains),
     M(r"^Option::<char>::unwrap$", m_opt_unwrap),
     M(r"^char::methods::<impl char>::to_ascii_uppercase$", m_to_ascii_uppercase),
     M(r"^char::methods::<impl char>::to_ascii_lowercase$", m_to_ascii_lowercase),
